@@ -72,7 +72,26 @@ func init() {
 // Lamport clocks reach two digits; identifier keys of the form (lamport 2, delimiter 10..11) and
 // (lamport 21, delimiter 0..1) then coexist.
 func runPrefix(w *World, name string) {
+	syncAll := func() {
+		for k := 0; k < 2; k++ {
+			for i := range w.reps {
+				w.Step(pt.Action{Op: "sync", R: i})
+			}
+		}
+	}
 	switch name {
+	case "live": // shared live content on every replica: the start state of conflict patterns
+		switch w.P.Type {
+		case "map":
+			w.Step(pt.Action{Op: "put", R: 0, K: "a", V: "p"})
+		case "list":
+			w.Step(pt.Action{Op: "ins", R: 0, P: 0, N: 2, V: "p"})
+		case "doc":
+			w.Step(pt.Action{Op: "dput", R: 0, K: "a", V: "a"})
+		default:
+			w.Step(pt.Action{Op: "inc", R: 0, P: 1})
+		}
+		syncAll()
 	case "deep-list":
 		w.Step(pt.Action{Op: "ins", R: 0, P: 0, N: 12, V: "p"})
 		w.Step(pt.Action{Op: "sync", R: 0})
@@ -169,7 +188,11 @@ func localCalls(w *World, ri int, alpha string) []pt.Action {
 			add(pt.Action{Op: "ins", P: 0, N: 2, V: "p"})
 		}
 		if n > 0 {
-			for _, p := range uniq(0, n-1) {
+			dpos := uniq(0, n-1)
+			if rich || strings.Contains(alpha, "batch") {
+				dpos = uniq(0, n/2, n-1)
+			}
+			for _, p := range dpos {
 				add(pt.Action{Op: "del1", P: p})
 				add(pt.Action{Op: "upd", P: p, N: 1, V: "p"})
 			}
